@@ -3,8 +3,8 @@
                      built from the writer's per-record inputs (MasterRR.mrr_dir_specs, RRPlace.place) with NO bytes,
                      no search in the image and no check: every record's dr_entries / ce_entries are the placed
                      entries with the two in-place updates (link count, CE pointer: prr_fix_E), SL components in the
-                     form RRSLRecord.parse leaves them (prr_norm_comp: '.', '..', '/' carry no data), version 1.12
-                     or 1.09 (1.10 is NOT recoverable: prr_ver_of), the continuation blocks tracked in walk order
+                     form RRSLRecord.parse leaves them (prr_norm_comp: '.', '..', '/' carry no data), the writer's
+                     version (prr_ver_of), the continuation blocks tracked in walk order
                      WITHOUT the overlap test (prr_track_u), numbered by first use
      state_of pvd root_len g   the AccountRR state of an opened object: tree, per-record bookkeeping (file_ident,
                      RRIP name, symlink target, dr_len, continuation key), rr_ce_blocks.  BLOCK IDENTITIES after open
@@ -43,9 +43,9 @@ Definition prr_fix_E (x : rspec) (E : rr_entries) : rr_entries :=
              (cl_record E) (pl_record E) (tf_record E) (sf_record E) (re_record E) (st_record E)
              (pd_records E) (al_records E).
 
-(* what the version inference can tell: a 44-byte PX or the IEEE_P1282 ER -> 1.12; else (no SF entry is ever
-   written) 1.09 *)
-Definition prr_ver_of (v : rrv) : rrv := match v with V112 => V112 | V_unset => V_unset | _ => V109 end.
+(* what the version inference tells (after fixes 2755ef8 / 26337bc: no RR entry on either side -> 1.10; an RR entry
+   in the continuation area turns the 1.10 of the record's own area into 1.09): the writer's version *)
+Definition prr_ver_of (v : rrv) : rrv := v.
 
 Definition prr_spec_rrd (v : rrv) (dt : list Z) (x : rspec) (blk : option nat) : option rrd :=
   match place (mrr_pin v dt x) with
@@ -271,10 +271,10 @@ Definition prr_case_ok (c : prr_case) : bool :=
   | POk g, [e] =>
       prr_egraph_eqb (prr_egraph_of g) e && prr_names_agree g &&
       (* the writer side *)
-      (negb (prr_tree_ok s) || prr_egraph_eqb (prr_egraph_of (graph_of dt s)) e) &&
+      prr_tree_ok s && prr_egraph_eqb (prr_egraph_of (graph_of dt s)) e &&
       (let '(a, b, c0) := pvd in (a =? r_space s) && (b =? r_ptr_size s) && (c0 =? r_ptr_ext s)) &&
-      (* edits after reopen (the version survives the round trip only for 1.09 and 1.12) *)
-      (if vc =? 110 then true
+      (* edits after reopen *)
+      (if false then true
        else let '(f1, s1) := prr_flags s edits in
             let '(f2, s2) := prr_flags (state_of pvd rl g) edits in
             prr_bools_eqb f1 fo && prr_bools_eqb f2 fr && (r_space s1 =? sp_o) && (r_space s2 =? sp_r) &&
